@@ -96,3 +96,22 @@ macro_rules! sig_harness {
         fn $name() $body
     };
 }
+
+/// streamable harness: SHA recorder + BLS token model + proof-of-space quality model
+#[macro_export]
+macro_rules! wire_harness {
+    ($name:ident, $unwind:expr, $body:block) => {
+        #[kani::proof]
+        #[kani::unwind($unwind)]
+        #[kani::stub(std::hash::RandomState::new, $crate::stubs::fixed_keys)]
+        #[kani::stub(chia_sha2::Sha256::new, $crate::stubs::sha_new)]
+        #[kani::stub(chia_sha2::Sha256::update, $crate::stubs::sha_update)]
+        #[kani::stub(chia_sha2::Sha256::finalize, $crate::stubs::sha_finalize)]
+        #[kani::stub(chia_consensus::conditions::PublicKey::from_bytes, $crate::stubs::pk_from_bytes_stub)]
+        #[kani::stub(chia_consensus::conditions::PublicKey::from_bytes_unchecked, $crate::stubs::pk_from_bytes_unchecked_stub)]
+        #[kani::stub(chia_consensus::conditions::PublicKey::to_bytes, $crate::stubs::pk_to_bytes_stub)]
+        #[kani::stub(chia_protocol::ProofOfSpace::quality_string, $crate::stubs::pos_quality_stub)]
+        #[kani::stub(std::fmt::format, $crate::stubs::fmt_stub)]
+        fn $name() $body
+    };
+}
